@@ -207,3 +207,42 @@ collect:
 	}
 	return obs, note
 }
+
+// c08pre: `c08 pre suite=<ed|g1|g2> addr=<tls|tcp|local> priv=<yes|no>` - NewTLSConn of a fresh node, with or
+// without its private key, towards the honest node addressed as a TLS, plain TCP or in-memory address
+// (tls.go:472-478: nothing is sent unless the address is a TLS address and the private key is there).
+func c08pre(tk []string, cs *h.Case) (string, string) {
+	m, ok := c08kv(tk, "suite", "addr", "priv")
+	if !ok || !c08in(m["suite"], "ed", "g1", "g2") || !c08in(m["addr"], "tls", "tcp", "local") || !c08in(m["priv"], "yes", "no") {
+		return "bad-op", ""
+	}
+	hn := c08node0(m["suite"])
+	w := c08newWorld(m["suite"], hn.kp)
+	us := network.NewServerIdentity(w.keys["v"].Public, network.NewTLSAddress("127.0.0.1:7"))
+	if m["priv"] == "yes" {
+		us.SetPrivate(w.keys["v"].Private)
+	}
+	addr := network.NewTLSAddress(hn.addr)
+	switch m["addr"] {
+	case "tcp":
+		addr = network.NewTCPAddress(hn.addr)
+	case "local":
+		addr = network.NewLocalAddress(hn.addr)
+	}
+	them := network.NewServerIdentity(hn.kp.Public, addr)
+	conn, err := network.NewTLSConn(us, them, hn.suite)
+	if err == nil {
+		conn.Close()
+		if m["addr"] != "tls" || m["priv"] != "yes" {
+			cs.Fail("link-without-means-to-prove:"+m["addr"]+":"+m["priv"], "NewTLSConn established a link although the address is no TLS address or the node has no private key")
+		}
+		return "pre=ok link=ok", ""
+	}
+	switch {
+	case strings.Contains(err.Error(), "not a tls server"):
+		return "pre=not-tls link=fail", ""
+	case strings.Contains(err.Error(), "private key is not set"):
+		return "pre=no-private link=fail", ""
+	}
+	return "pre=ok link=fail", c08class(err.Error())
+}
